@@ -456,11 +456,13 @@ inductive HistStep (t : Nat) (s s' : State) : Prop
   /-- the operation goes on: nothing observable changed -/
   | quiet (hh : s'.hist = s.hist) (ha : abs s' = abs s)
       (hr : ∀ u, (s'.threads u).results = (s.threads u).results)
+      (hq : ∀ u, (s'.threads u).prog = (s.threads u).prog)
   /-- the operation completes with result `r`: it is the sequential operation applied now -/
   | completes (op : Op) (rest : List Op) (r : Res) (hp : (s.threads t).prog = op :: rest)
       (hh : s'.hist = s.hist ++ [⟨t, op, r⟩]) (hne : r ≠ .uaf)
       (hsim : specOp (abs s) op = (r, abs s'))
       (hr : ∀ u, (s'.threads u).results = (s.threads u).results ++ (if u = t then [r] else []))
+      (hq : ∀ u, (s'.threads u).prog = if u = t then rest else (s.threads u).prog)
 
 structure StepFacts (t : Nat) (s s' : State) : Prop where
   inv : Inv s'
@@ -502,11 +504,15 @@ theorem step_facts {F : Facts} (hF : F = Facts.guarded) {t : Nat} {s s' : State}
               exact hn
             · simp only [upd_other _ _ _ _ hu]
               exact pcOK_frame g.frame hu (hinv u)
-          · refine .quiet rfl ha ?_
-            intro u
-            by_cases hu : u = t
-            · subst hu; simp
-            · simp [upd_other _ _ _ _ hu]
+          · refine .quiet rfl ha ?_ ?_
+            · intro u
+              by_cases hu : u = t
+              · subst hu; simp
+              · simp [upd_other _ _ _ _ hu]
+            · intro u
+              by_cases hu : u = t
+              · subst hu; simp
+              · simp [upd_other _ _ _ _ hu]
           · intro u op' hop'
             by_cases hu : u = t
             · subst hu; simpa [hprog] using hop'
@@ -524,11 +530,15 @@ theorem step_facts {F : Facts} (hF : F = Facts.guarded) {t : Nat} {s s' : State}
               split <;> simp [OpPc]
             · simp only [upd_other _ _ _ _ hu]
               exact pcOK_frame g.frame hu (hinv u)
-          · refine .completes op rest r hprog rfl (g.res r hnext) (opStep_sim hF hpc hop r hnext) ?_
-            intro u
-            by_cases hu : u = t
-            · subst hu; simp
-            · simp [hu]
+          · refine .completes op rest r hprog rfl (g.res r hnext) (opStep_sim hF hpc hop r hnext) ?_ ?_
+            · intro u
+              by_cases hu : u = t
+              · subst hu; simp
+              · simp [hu]
+            · intro u
+              by_cases hu : u = t
+              · subst hu; simp
+              · simp [hu]
           · intro u op' hop'
             by_cases hu : u = t
             · subst hu
@@ -561,6 +571,7 @@ structure RunFacts (s s' : State) : Prop where
   hist : ∃ ds, s'.hist = s.hist ++ ds ∧ (∀ d ∈ ds, d.res ≠ .uaf) ∧
     (∀ d ∈ ds, d.op ∈ (s.threads d.tid).prog) ∧
     (∀ u, (s'.threads u).results = (s.threads u).results ++ ((ds.filter (·.tid = u)).map (·.res))) ∧
+    (∀ u, (ds.filter (·.tid = u)).map (·.op) ++ (s'.threads u).prog = (s.threads u).prog) ∧
     specRun (abs s) (ds.map (·.op)) = (ds.map (·.res), abs s')
   trace : ∃ tr, s'.trace = s.trace ++ tr ∧ ∀ e ∈ tr, ∀ x ∈ e.2, x ≠ Ev.outside ∧ x ≠ Ev.stale
   progs : ∀ u op, op ∈ (s'.threads u).prog → op ∈ (s.threads u).prog
@@ -582,18 +593,19 @@ theorem run_facts {F : Facts} (hF : F = Facts.guarded) :
     · rename_i s1 hstep
       have f1 := step_facts hF hinv hstep
       have f2 := ih s1 s' f1.inv h
-      obtain ⟨ds, hds, hne, hmem, hres, hsim⟩ := f2.hist
+      obtain ⟨ds, hds, hne, hmem, hres, hord, hsim⟩ := f2.hist
       obtain ⟨tr, htr, htrg⟩ := f2.trace
       obtain ⟨evs, hevs, hevg⟩ := f1.trace
       refine ⟨f2.inv, ?_, ⟨(t, evs) :: tr, by rw [htr, hevs]; simp, ?_⟩,
         fun u op h' => f1.progs u op (f2.progs u op h')⟩
       · cases f1.hist with
-        | quiet hh ha hr =>
-          refine ⟨ds, by rw [hds, hh], hne, fun d hd => f1.progs _ _ (hmem d hd), ?_, ?_⟩
+        | quiet hh ha hr hq =>
+          refine ⟨ds, by rw [hds, hh], hne, fun d hd => f1.progs _ _ (hmem d hd), ?_, ?_, ?_⟩
           · intro u; rw [hres u, hr u]
+          · intro u; rw [hord u, hq u]
           · rw [← ha]; exact hsim
-        | completes op rest' r hp hh hne' hsim' hr =>
-          refine ⟨⟨t, op, r⟩ :: ds, by rw [hds, hh]; simp, ?_, ?_, ?_, ?_⟩
+        | completes op rest' r hp hh hne' hsim' hr hq =>
+          refine ⟨⟨t, op, r⟩ :: ds, by rw [hds, hh]; simp, ?_, ?_, ?_, ?_, ?_⟩
           · intro d hd
             rcases List.mem_cons.1 hd with h' | h'
             · subst h'; exact hne'
@@ -608,6 +620,16 @@ theorem run_facts {F : Facts} (hF : F = Facts.guarded) :
             · subst hu; simp
             · have : ¬ t = u := fun h => hu h.symm
               simp [hu, this]
+          · intro u
+            have h1 := hord u
+            rw [hq u] at h1
+            by_cases hu : u = t
+            · subst hu
+              simp only [↓reduceIte] at h1
+              simp [hp, h1]
+            · have : ¬ t = u := fun h => hu h.symm
+              simp only [hu, ↓reduceIte] at h1
+              simp [this, h1]
           · simp only [List.map_cons, specRun, hsim', hsim]
       · intro e he
         rcases List.mem_cons.1 he with h' | h'
